@@ -123,7 +123,16 @@ def main():
                        'decoder': {'name': 'MatchingDecoder', 'parameters': a.get('decs', [{}])}, 'error_rate': a['rates']}}
     with contextlib.redirect_stdout(io.StringIO()):
         b = read_input_dict(spec, a['out'], verbose=False, save_frequency=a['save_freq'], update_frequency=1000)
-        b.run(a['target'])
+        try:
+            b.run(a['target'])
+        except KeyboardInterrupt:
+            if not ev.get('resume_in_process'):
+                raise
+        if ev.get('resume_in_process'):
+            # the user restarts the same specification in the SAME interpreter session (a notebook): a new batch object on the same file
+            ev['kind'] = 'none'
+            b2 = read_input_dict(spec, a['out'], verbose=False, save_frequency=a['save_freq'], update_frequency=1000)
+            b2.run(a['target'])
     sys.exit(0)
 
 
